@@ -251,6 +251,7 @@ type State struct {
 	threads   []*Thread // suspended goroutines (blocked or runnable)
 	resume    []*Thread // threads to return to when the running one blocks or finishes
 	started   map[int]bool
+	guards    map[int]guard      // map object -> lock that must be held when library code touches it
 	divCache  map[string][2]Term // IA mode: quotient/remainder symbols already introduced on this path
 }
 
@@ -346,6 +347,12 @@ func (e *Engine) clone(st *State) *State {
 			n.resume = append(n.resume, cp(t))
 		}
 	}
+	if st.guards != nil {
+		n.guards = make(map[int]guard, len(st.guards))
+		for k, g := range st.guards {
+			n.guards[k] = g
+		}
+	}
 	if st.divCache != nil {
 		n.divCache = make(map[string][2]Term, len(st.divCache))
 		for k, v := range st.divCache {
@@ -380,6 +387,12 @@ func cloneFrames(fs []*Frame) []*Frame {
 		out = append(out, &g)
 	}
 	return out
+}
+
+type guard struct {
+	lock        int
+	label       string
+	deletesOnly bool
 }
 
 type hardErr string
